@@ -98,6 +98,12 @@ pub broadcast axiom fn ascii_byte_boundaries(s: &str, i: int)
     requires 0 <= i < s.spec_bytes().len(), #[trigger] s.spec_bytes()[i] < 128
     ensures vstd::utf8::is_char_boundary(s.spec_bytes(), i), vstd::utf8::is_char_boundary(s.spec_bytes(), i + 1);
 
+// an all-ASCII text is encoded byte for character
+pub broadcast axiom fn ascii_text_bytes(s: &str)
+    requires forall|i: int| 0 <= i < s@.len() ==> (#[trigger] s@[i] as u32) < 128
+    ensures #![trigger s.spec_bytes()]
+        s.spec_bytes().len() == s@.len(), forall|i: int| 0 <= i < s@.len() ==> #[trigger] s.spec_bytes()[i] == s@[i] as u8;
+
 // both ends of any string are character boundaries
 pub broadcast axiom fn str_ends_are_boundaries(s: &str)
     ensures #![trigger s.spec_bytes()]
